@@ -1277,3 +1277,45 @@ def model_powmod(base, power, modulus):
 
 
 _REAL_POWMOD = cryptomath.powMod
+
+
+def corrupt_finished(conn, I, mode="arbitrary"):
+    """make this endpoint dishonest about its Finished: the verify_data it
+    sends is an arbitrary value different from the one the real code
+    computed (or a bit flip / truncation of it).  Everything else is the
+    real code.  Returns a list that receives the genuine value."""
+    seen = []
+
+    def fix(msg):
+        if isinstance(msg, M.Finished) and not seen:
+            good = list(msg.verify_data)
+            seen.append(good)
+            if mode == "arbitrary":
+                bad = I.bytes(len(good), "forged_finished")
+                assume(NOT(seq_eq(list(bad), good)))
+                msg.verify_data = newbuf(list(bad))
+            elif mode == "bitflip":
+                j = I.pick(list(range(0, len(good), 5)), "flip_byte")
+                m = I.byte("flip_mask")
+                assume(m != 0)
+                bad = list(good)
+                bad[j] = bad[j] ^ m
+                msg.verify_data = newbuf(bad)
+            elif mode == "short":
+                msg.verify_data = newbuf(good[:-1])
+            elif mode == "long":
+                msg.verify_data = newbuf(good + [0])
+            elif mode == "empty":
+                msg.verify_data = newbuf([])
+        return msg
+    orig_send = conn._sendMsg
+    orig_queue = conn._queue_message
+
+    def send(msg, *a, **k):
+        return orig_send(fix(msg), *a, **k)
+
+    def queue(msg):
+        return orig_queue(fix(msg))
+    conn._sendMsg = send
+    conn._queue_message = queue
+    return seen
